@@ -457,7 +457,7 @@ Section TrackerCb.
   (* ---------------------------------------------------------------- one step *)
   Theorem step_sinv (en : env) (st : tracker) op : sinv st -> sinv (rc_state (trkc_step nattrs en st op)).
   Proof.
-    intros I. destruct op as [now msg ts|now|m|ev cb|ev cb]; simpl.
+    intros I. destruct op as [now msg ts|now|m|ev cb|ev cb|newttl|]; simpl.
     - destruct (update_c en st now msg ts I) as [[_ E]|(_ & I2 & E)]; rewrite E; [exact I|].
       destruct (snd (brkc_propagate en (t_broker st) _ _)); simpl; [|now apply sinv_raised_insert].
       apply cleanup_c_sinv. now apply sinv_after_insert.
@@ -466,6 +466,8 @@ Section TrackerCb.
         [now apply sinv_without | assumption].
     - now apply (sinv_same st).
     - now apply (sinv_same st).
+    - now apply (sinv_same st).
+    - destruct I as [A B C D]. constructor; simpl; auto. discriminate.
   Qed.
 
   Lemma cleanup_c_oinv (en : env) (st : tracker) now : sinv st -> oinv st -> env_ok en ->
@@ -498,7 +500,7 @@ Section TrackerCb.
     inv nattrs (rc_state (trkc_step nattrs en st op)).
   Proof.
     intros I0 OK. pose proof (proj1 (inv_split st) I0) as [I O]. apply inv_split. split; [now apply step_sinv|].
-    destruct op as [now msg ts|now|m|ev cb|ev cb]; simpl in *.
+    destruct op as [now msg ts|now|m|ev cb|ev cb|newttl|]; simpl in *.
     - destruct (update_c en st now msg ts I) as [[_ E]|(NR & I2 & E)]; rewrite E in *; [exact O|].
       destruct (msg_to_track_facts nattrs msg ts now) as (Fm & _ & Fl).
       destruct (snd (brkc_propagate en (t_broker st) _ _)); simpl in *.
@@ -509,6 +511,8 @@ Section TrackerCb.
     - now apply cleanup_c_oinv.
     - pose proof (pop_track_c en st m (s_nodup _ I)) as P. destruct (idict_get (t_tracks st) m); simpl in P; rewrite P; simpl;
         [now apply oinv_without | assumption].
+    - exact O.
+    - exact O.
     - exact O.
     - exact O.
   Qed.
@@ -524,11 +528,12 @@ Section TrackerCb.
   Lemma reachable_any_sinv st : reachable_any st -> sinv st.
   Proof. intros R. apply reachable_any_inv in R. apply inv_split in R. tauto. Qed.
 
+  (* only the two configuration operations change the configuration *)
   Lemma step_cfg_c (en : env) (st : tracker) op : sinv st ->
-    t_ordered (rc_state (trkc_step nattrs en st op)) = t_ordered st /\
-    t_ttl (rc_state (trkc_step nattrs en st op)) = t_ttl st.
+    t_ordered (rc_state (trkc_step nattrs en st op)) = sp_mode (t_ordered st) (abs_op op) /\
+    t_ttl (rc_state (trkc_step nattrs en st op)) = sp_ttl_after (t_ttl st) (abs_op op).
   Proof.
-    intros I. destruct op as [now msg ts|now|m1|ev cb|ev cb]; simpl; auto.
+    intros I. destruct op as [now msg ts|now|m1|ev cb|ev cb|newttl|]; simpl; auto.
     - destruct (update_c en st now msg ts I) as [[_ E]|(_ & I2 & E)]; rewrite E; simpl; [auto|].
       destruct (after_insert_cfg st (m_mmsi msg) (trk_msg_to_track nattrs msg ts now)) as (A & B & _).
       destruct (snd (brkc_propagate en (t_broker st) _ _)); simpl.
@@ -613,7 +618,7 @@ Section TrackerCb.
     incl (keys (t_tracks st)) (keys (t_tracks (rc_state (trkc_step nattrs en st op)))).
   Proof.
     intros R ET NP. apply reachable_any_sinv in R.
-    destruct op as [now msg ts|now|m|ev cb|ev cb]; simpl.
+    destruct op as [now msg ts|now|m|ev cb|ev cb|newttl|]; simpl.
     - destruct (update_c en st now msg ts R) as [[_ E]|(_ & I2 & E)]; rewrite E; simpl.
       + split; [reflexivity | apply incl_refl].
       + destruct (after_insert_cfg st (m_mmsi msg) (trk_msg_to_track nattrs msg ts now)) as (Ettl & _ & _ & Etr).
@@ -630,6 +635,8 @@ Section TrackerCb.
         * unfold deleted_mmsis. simpl. rewrite upd_event_not_deleted. split; [reflexivity|]. now rewrite raised_insert_tracks.
     - rewrite (cleanup_c_nottl en st now ET). simpl. split; [reflexivity | apply incl_refl].
     - exfalso. now apply (NP m).
+    - split; [reflexivity | apply incl_refl].
+    - split; [reflexivity | apply incl_refl].
     - split; [reflexivity | apply incl_refl].
     - split; [reflexivity | apply incl_refl].
   Qed.
@@ -703,7 +710,7 @@ Section TrackerCb.
   Proof.
     intros I. rewrite events_of_calls.
     assert (SAME : forall b, [] = sp_expected_events None m b b) by (intros []; reflexivity).
-    destruct op as [now msg ts|now|m1|ev cb|ev cb]; simpl.
+    destruct op as [now msg ts|now|m1|ev cb|ev cb|newttl|]; simpl.
     - destruct (update_c en st now msg ts I) as [[_ E]|(_ & I2 & E)]; rewrite E; simpl; [split; [apply SAME | auto]|].
       set (m0 := m_mmsi msg) in *. set (new := trk_msg_to_track nattrs msg ts now) in *.
       destruct (upd_result_facts_s st m0 new I) as (Rm & _);
@@ -732,6 +739,8 @@ Section TrackerCb.
       destruct (Z.eqb_spec m m1) as [->|N]; simpl.
       + unfold idict_mem. rewrite G. split; [reflexivity | discriminate].
       + split; [apply SAME | auto].
+    - split; [apply SAME | auto].
+    - split; [apply SAME | auto].
     - split; [apply SAME | auto].
     - split; [apply SAME | auto].
   Qed.
@@ -824,7 +833,7 @@ Section TrackerCb.
   Proof.
     intros R. apply reachable_any_sinv in R.
     assert (G : rc_deliv (trkc_step nattrs en st op) = trkc_deliver en (t_broker st) (rc_calls (trkc_step nattrs en st op))).
-    { destruct op as [now msg ts|now|m1|ev cb|ev cb]; simpl; try reflexivity.
+    { destruct op as [now msg ts|now|m1|ev cb|ev cb|newttl|]; simpl; try reflexivity.
       - destruct (update_c en st now msg ts R) as [[_ E]|(_ & I2 & E)]; rewrite E; simpl; [reflexivity|].
         destruct (after_insert_cfg st (m_mmsi msg) (trk_msg_to_track nattrs msg ts now)) as (_ & _ & Eb & _).
         destruct (snd (brkc_propagate en (t_broker st) _ _)) eqn:EP; simpl; [|now rewrite app_nil_r].
@@ -891,7 +900,7 @@ Section TrackerCb.
     (rc_calls (trkc_step nattrs en st op) = [] /\ rc_deliv (trkc_step nattrs en st op) = [] /\ e = Py ValueError) \/
     raised_last en (rc_deliv (trkc_step nattrs en st op)) e.
   Proof.
-    intros R. apply reachable_any_sinv in R. destruct op as [now msg ts|now|m1|ev cb|ev cb]; simpl; try discriminate.
+    intros R. apply reachable_any_sinv in R. destruct op as [now msg ts|now|m1|ev cb|ev cb|newttl|]; simpl; try discriminate.
     - destruct (update_c en st now msg ts R) as [[_ E]|(_ & I2 & E)]; rewrite E; simpl; [intros [= <-]; now left|].
       destruct (snd (brkc_propagate en (t_broker st) _ _)) as [|e0] eqn:EP; simpl.
       + intros H. right. apply raised_last_app. apply cleanup_exn; [|assumption]. apply (s_nodup _ (sinv_after_insert _ _ _ I2)).
@@ -972,7 +981,7 @@ Section TrackerCb.
     rc_deliv (trkc_step nattrs trk_env_quiet st op) = trk_deliver (t_broker st) (r_calls (trk_step nattrs st op)) /\
     (forall m, op = OpPop m -> rc_ret (trkc_step nattrs trk_env_quiet st op) = snd (trk_pop_track st m)).
   Proof.
-    destruct op as [now msg ts|now|m|ev cb|ev cb]; simpl.
+    destruct op as [now msg ts|now|m|ev cb|ev cb|newttl|]; simpl.
     - unfold trkc_update, trk_update. pose proof (ensure_broker st (tr_lu (trk_msg_to_track nattrs msg ts now))) as B1.
       destruct (trk_ensure_timestamp_constraints st _) as [st1 [e|]]; simpl in *; [repeat split; discriminate|].
       destruct (insert_or_update_quiet st1 (m_mmsi msg) (trk_msg_to_track nattrs msg ts now)) as (E & B2). rewrite E.
@@ -984,6 +993,8 @@ Section TrackerCb.
     - rewrite pop_track_quiet. simpl. split; [|split; [|split; [|split]]].
       1-4: destruct (trk_pop_track st m) as [[s1 c1] r1]; reflexivity.
       intros m' [= <-]. reflexivity.
+    - repeat split; discriminate.
+    - repeat split; discriminate.
     - repeat split; discriminate.
     - repeat split; discriminate.
   Qed.
@@ -1011,8 +1022,8 @@ Section ReachableCb.
   Variable nattrs : nat.
 
   Lemma step_cfg_reachable_c (en : trk_env V) (st : trk_tracker V) op : reachable_any nattrs st ->
-    t_ordered (rc_state (trkc_step nattrs en st op)) = t_ordered st /\
-    t_ttl (rc_state (trkc_step nattrs en st op)) = t_ttl st.
+    t_ordered (rc_state (trkc_step nattrs en st op)) = sp_mode (t_ordered st) (abs_op op) /\
+    t_ttl (rc_state (trkc_step nattrs en st op)) = sp_ttl_after (t_ttl st) (abs_op op).
   Proof. intros R. apply step_cfg_c. now apply reachable_any_sinv. Qed.
 
   Lemma step_events_reachable_c (en : trk_env V) (st : trk_tracker V) op m : reachable_any nattrs st ->
